@@ -191,7 +191,7 @@ func (o op) apply(ph []hash, pf []uint8, rel []hash, root hash) ([]hash, []uint8
 	}
 }
 
-func coqHash(h hash) string { return CoqBytes(h.Bytes()) }
+func coqHash(h hash) string { return "(B 0x" + h.String() + ")" } // C30.Run.B: big-endian bytes of the number
 func coqHashes(hs []hash) string {
 	it := make([]string, len(hs))
 	for i, h := range hs {
@@ -685,7 +685,7 @@ func (e *env) sublist(ids []hash) []hash {
 }
 
 func run(c *Ctx) error {
-	e := &env{c: c, budget: c.N(22000, 110000)}
+	e := &env{c: c, budget: c.N(9000, 60000)}
 	rng := c.Rng
 
 	// (A) cases for the model AND the oracle: every size 0..64 is reached; small sizes densely
